@@ -52,4 +52,8 @@ def run(prog: Program, col: Collector, tier: str, refs: Optional[Refs] = None, c
     algebra.r_split_reduced_vars_accounted(prog, col, refs, cat, "R08.20")
     from . import algebra as _algebra2
     _algebra2.r_guarded_reduce_has_alternative(prog, col, refs, cat, "R08.21")
+    from . import algebra as _alg3, c15 as _c15
+    _alg3.r_units_and_distributive_tables(prog, col, refs, cat, "R08.22", "R08.23")
+    col.rule("R08.24", "mixed scalar/array registrations of a commutative op are mirror images (naive evaluation of op(constant, tensor) runs them)", floor=6)
+    _c15._mirror(prog, col, refs, cat)
     return col
